@@ -148,8 +148,13 @@ func runC07(e *Env) Outcome {
 	sc := &c07Scenario{Format: f.String(), Cfg: cfgd}
 	var bytes []byte
 	structShaped := false
-	mode := t.Intn("doc-mode", 8)
+	mode := t.Intn("doc-mode", 9)
+	var litName string
+	var litTemplate func() interface{}
 	switch {
+	case mode == 8 && f == gen.CTE:
+		bytes, _, litName, litTemplate = adversarialLiteral(t)
+		e.Count("docs_huge_exponent_literal", 1)
 	case mode == 7:
 		depth := []int{5, 70, 1001, 3000}[t.Intn("deep-depth", 4)]
 		if !e.Thorough() && depth > 1001 {
@@ -199,6 +204,9 @@ func runC07(e *Env) Outcome {
 	}
 	if structShaped {
 		tmpl = c07StructTemplates[t.Intn("struct-template", len(c07StructTemplates))]
+	}
+	if litTemplate != nil {
+		tmpl.name, tmpl.mk = litName, litTemplate
 	}
 	sc.Template = tmpl.name
 	withRules := t.Bool("decoder-rules")
